@@ -90,7 +90,7 @@ def main(argv):
             return bool(d.get("impl_vs_spec", True))
         if name == "k2":
             return bool(d.get("impl_deeper"))
-        if name in ("cc:k6a", "cc:k6d", "cc:k4acc", "k3:native", "tb:run", "tb:opt", "tb:accept", "k8:c15", "k8:c16"):
+        if name in ("cc:k6a", "cc:k6d", "cc:k4acc", "k3:native", "tb:run", "tb:opt", "tb:accept", "k8:c13", "k8:c15", "k8:c16"):
             return True
         if name == "cc:k6e":
             return "Buildable=True" in d.get("model", "") or "Buildable=true" in d.get("model", "")
@@ -172,6 +172,16 @@ def main(argv):
             kf_report.append({"id": k["id"], "template": k["template"], "state": "reproduces" if still else "no longer reproduces", "observed": v})
             if still:
                 known_lines.append(f"KNOWN-FINDING: property={pid} {k['id']}/{k['template']} {k['what']}")
+    if any(k.get("kind") == "k8" for k in known):
+        kr8 = stage_results.get("k8") or corr_k8.k8(ctx)
+        for k in known:
+            if k.get("kind") != "k8":
+                continue
+            v = (kr8.get("witness") or {}).get(k["case"])
+            still = bool(v and v.get("reproduces"))
+            kf_report.append({"id": k["id"], "case": k["case"], "state": "reproduces" if still else "no longer reproduces", "observed": v})
+            if still:
+                known_lines.append(f"KNOWN-FINDING: property={pid} {k['id']}/{k['case']} {k['what']}")
     for k in known:
         if k.get("kind") == "k2":
             g = stage_results.get("k2", {}).get("growth_witness", "")
